@@ -59,6 +59,12 @@ func genSoftCase(t *rapid.T) softCase {
 	}
 	c.headTime = rapid.OneOf(rapid.Uint64Range(0, 1<<33), rapid.Uint64()).Draw(t, "head")
 	lockedBias := rapid.IntRange(0, 5).Draw(t, "lockedbias") == 0
+	// top of the hours range: a single input whose hours at the head time are within 24 of 2^64-1 (the required fee
+	// ceil(hours/burn) must not be computed with a wrapping hours+burn-1)
+	topHours := rapid.IntRange(0, 7).Draw(t, "tophours") == 0
+	if topHours {
+		nIn = 1
+	}
 	var owners []gen.Key
 	for i := 0; i < nIn; i++ {
 		max := 3
@@ -71,6 +77,11 @@ func genSoftCase(t *rapid.T) softCase {
 			Body: coin.UxBody{SrcTransaction: gen.SHA(t, "src"), Address: k.Addr,
 				Coins: 1 + rapid.OneOf(gen.Amount(1e14), gen.Amount(1e14), rapid.Uint64Range(0, 1<<62)).Draw(t, "coins"),
 				Hours: rapid.OneOf(gen.Amount(1e9), gen.Amount(1e9), rapid.Uint64()).Draw(t, "hours")},
+		}
+		if topHours {
+			ux.Head.Time = c.headTime
+			ux.Body.Hours = ^uint64(0) - rapid.Uint64Range(0, 24).Draw(t, "below_max")
+			c.tags = append(c.tags, "hours_top_of_range")
 		}
 		c.uxIn = append(c.uxIn, ux)
 		owners = append(owners, k)
@@ -90,6 +101,9 @@ func genSoftCase(t *rapid.T) softCase {
 		}
 	}
 	c.vp.BurnFactor = rapid.OneOf(rapid.Uint32Range(2, 20), rapid.Uint32Range(2, 1<<32-1), rapid.Just(uint32(1<<32-1))).Draw(t, "burn")
+	if topHours && rapid.Bool().Draw(t, "smallburn") {
+		c.vp.BurnFactor = rapid.Uint32Range(2, 30).Draw(t, "burn_small")
+	}
 	c.vp.MaxDropletPrecision = uint8(rapid.SampledFrom([]int{6, 6, 6, 0, 1, 2, 3, 4, 5, 6}).Draw(t, "prec"))
 	// coins: split the total (when it fits) with a precision-aware generator
 	var outCoins []uint64
@@ -281,7 +295,7 @@ func TestC11_SoftHard(t *testing.T) {
 		r.Count("soft_" + map[bool]string{true: "pass", false: whySoft}[wantSoft])
 		nt := false
 		for _, tg := range c.tags {
-			if tg == "hours_boundary" || tg == "hours_zero_fee" || tg == "hours_overflow" || tg == "hours_above" || len(tg) > 8 && tg[:8] == "accrual_" {
+			if tg == "hours_top_of_range" || tg == "hours_boundary" || tg == "hours_zero_fee" || tg == "hours_overflow" || tg == "hours_above" || len(tg) > 8 && tg[:8] == "accrual_" {
 				nt = true
 			}
 		}
